@@ -886,6 +886,33 @@ func gitHostile(c *Ctx, op string) {
 		c.H("git-hostile:" + hc.name + ":" + strings.Fields(res + " x")[0][:min(len(strings.Fields(res + " x")[0]), 5)])
 		c.EmitR(sop, modelOp, res)
 	}
+	// a sub-tree object the repository has lost (a damaged object store): the unpack fails, it does not deliver the part of
+	// the tree that precedes the hole
+	{
+		sop := op + " missing-subtree"
+		dTree := sub([3]string{"100644", "f", blob})
+		root := sub([3]string{"100644", "a", blob}, [3]string{"40000", "d", dTree}, [3]string{"100644", "z", blob})
+		if out, err := gitCmd(repo, "commit-tree", "-m", "hole", root); err == nil && dTree != "" {
+			commit := strings.TrimSpace(out)
+			gitCmd(repo, "update-ref", "refs/heads/h-missing-subtree", commit)
+			os.Remove(filepath.Join(repo, ".git", "objects", dTree[:2], dTree[2:]))
+			for _, pm := range []rio.PlacementMode{rio.Placement_Direct, rio.Placement_Copy} {
+				dst := filepath.Join(base, "dst-hole-"+string(pm))
+				got, uerr, upan := safeCall(func() (api.WareID, error) {
+					return gittrans.Unpack(context.Background(), api.WareID{Type: "git", Hash: commit}, dst, uf, pm, wh, rio.Monitor{})
+				})
+				switch {
+				case upan != "":
+					c.PropFail("git-panic", "a commit with a missing sub-tree object made the unpack panic: "+upan, sop)
+				case uerr == nil:
+					_, ez := os.Lstat(filepath.Join(dst, "z"))
+					_, ed := os.Lstat(filepath.Join(dst, "d", "f"))
+					c.PropFail("git-content", fmt.Sprintf("the repository lacks the tree object of directory d; the unpack (%s) answers %s and delivers a tree without it (d/f: %v, the later sibling z: %v)", pm, got, ed, ez), sop)
+				}
+				c.H("git-hostile:missing-subtree:" + resTok(got, uerr, upan))
+			}
+		}
+	}
 	// a commit object naming a tree that is not in the repository
 	{
 		sop := op + " missing-tree"
